@@ -5,7 +5,7 @@ LEVEL = "proof"
 
 
 def run(chk):
-    build, oracle, tables = emucheck.setup(chk, extra_units=("prv", "chan", "mux"))
+    build, oracle, tables = emucheck.setup(chk, extra_units=("prv", "chan", "mux", "emuloop"))
     chk.assumptions = ["distinct clocks per event", "task, mark and breakdown channels are exercised by C07, C17 and C20"]
     rng = chk.rng
     allm = [m["name"] for m in tables["models"] if m["name"] != "ovni"]
